@@ -53,7 +53,7 @@ CoreTokens == Tokens \ ({"-=", "*=", "/=", "%=", "<<=", ">>=", "&=", "|=", "^="}
 
 \* names and literals used by the grammar's templates and contexts but not enumerated as tokens
 AuxTok == {"y", "s", "b", "a", "t", "r", "c", "it", "u", "m", "w", "ca", "nv", "f2", "pr", "mkt", "mkr", "mka", "mki", "n", "p", "q", "g", "e", "z", "h",
-           "2", "5", "63", "64", "9223372036854775807", "99999999999999999999",
+           "2", "3", "5", "7", "63", "64", "9223372036854775807", "99999999999999999999",
            "\"@valid\"", "\"@invalid\"", "\"@illtyped\"", "\"@missing\"", "\"@dir\"", "\"@binary\"",
            "\"@self\""}
 
@@ -486,6 +486,20 @@ CheckerSeeds == {
   FoldSeed(<<"99999999999999999999">>, "Rejected")
 }
 ValidSeeds == {
+  \* a constant index / position / field into a literal with NON-constant elements (the folder selects an element)
+  FoldSeed(<<"(", "(", "a", ":", "int", ")", "->", "any", "{", "return", "[", "a", ",", "7", "]", "[", "-", "1", "]", "}", ")">>, "Accepted"),
+  FoldSeed(<<"(", "(", "a", ":", "int", ")", "->", "any", "{", "return", "[", "a", ",", "7", "]", "[", "-", "2", "]", "}", ")">>, "Accepted"),
+  FoldSeed(<<"(", "(", "a", ":", "int", ")", "->", "any", "{", "return", "[", "a", ",", "7", "]", "[", "0", "]", "}", ")">>, "Accepted"),
+  FoldSeed(<<"(", "(", "a", ":", "int", ")", "->", "any", "{", "return", "[", "a", ",", "7", "]", "[", "1", "]", "}", ")">>, "Accepted"),
+  FoldSeed(<<"(", "(", "a", ":", "int", ")", "->", "any", "{", "return", "[", "7", ",", "a", ",", "a", "]", "[", "-", "3", "]", "}", ")">>, "Accepted"),
+  FoldSeed(<<"(", "(", "a", ":", "int", ")", "->", "any", "{", "return", "[", "a", ",", "7", "]", "[", "-", "1", ":", "]", "}", ")">>, "Accepted"),
+  FoldSeed(<<"(", "(", "a", ":", "int", ")", "->", "any", "{", "return", "[", "a", ",", "7", "]", "[", ":", "-", "1", "]", "}", ")">>, "Accepted"),
+  FoldSeed(<<"(", "(", "a", ":", "int", ")", "->", "any", "{", "return", "[", "a", ",", "7", "]", "[", ":", ":", "-", "1", "]", "}", ")">>, "Accepted"),
+  FoldSeed(<<"(", "(", "a", ":", "int", ")", "->", "any", "{", "return", "[", "a", ";", "2", "]", "[", "-", "1", "]", "}", ")">>, "Accepted"),
+  FoldSeed(<<"(", "(", "a", ":", "int", ")", "->", "any", "{", "return", "(", "a", ",", "7", ")", ".", "1", "}", ")">>, "Accepted"),
+  FoldSeed(<<"(", "(", "a", ":", "int", ")", "->", "any", "{", "return", "(", "a", ",", "7", ")", ".", "0", "}", ")">>, "Accepted"),
+  FoldSeed(<<"(", "(", "a", ":", "int", ")", "->", "any", "{", "return", "struct", "{", "x", ":=", "a", ",", "y", ":=", "7", "}", ".", "y", "}", ")">>, "Accepted"),
+  FoldSeed(<<"(", "(", "a", ":", "int", ")", "->", "any", "{", "return", "[", "[", "a", "]", ",", "[", "7", "]", "]", "[", "-", "1", "]", "[", "-", "1", "]", "}", ")">>, "Accepted"),
   FoldSeed(<<"(", "(", "x", ":", "string", ")", "->", "any", "{", "{", "x", ":=", "5", "}", "return", "x", "+", "\"s\"", "}", ")">>, "Accepted"),
   FoldSeed(<<"(", "(", "x", ":", "string", ",", "p", ":", "int", ")", "->", "any", "{", "if", "p", "==", "1", "{", "x", ":=", "5", "}", "return", "x", "+", "\"s\"", "}", ")">>, "Accepted"),
   FoldSeed(<<"(", "(", "x", ":", "string", ",", "p", ":", "int", ")", "->", "any", "{", "if", "p", "==", "1", "{", "}", "else", "{", "x", ":=", "5", "}", "return", "x", "+", "\"s\"", "}", ")">>, "Accepted"),
